@@ -33,6 +33,36 @@ var props = []PropSpec{
 			{Func: "Check_TemplateValue", Reach: []string{"built"}, Bounds: "all 22 element kinds, nil value"},
 		},
 	},
+	{
+		ID: "C02", Pkg: "./c02", ReplayPkg: "./cmd/rc02", Level: "model_checking",
+		Assumptions: append([]string{"the reference encoder (harness/ref, written from RFC 7011, no code shared with go-ipfix) is the independent judge: byte equality with its output for the same template and values means any independent decoder sees exactly that template and those values", "transport is a recording net.Conn; tcp and udp exporters differ only in background goroutines, which are not started (C14)"}, codecAssumptions...),
+		Harnesses: []HarnessSpec{
+			{Func: "Check_WellFormed", Reach: []string{"template-sent", "data-sent"},
+				Bounds: "templates of 1..2 (quick) / 1..3 (thorough) elements over 22 kinds (IANA, reverse 29305, Antrea 56506, user enterprise 7), all ordered combinations; 1..2 / 1..3 records; variable-length values of {0,255} / {0,1,254,255,256} bytes; every value bit, template id (>=256), observation domain and sequence state symbolic"},
+			{Func: "Check_RegistrySweep", Reach: []string{"swept", "absent", "unsupported-type"},
+				Bounds: "every element id 0..520 of enterprises {0, 29305, 56506, 7} as a one-field template, symbolic value, variable lengths {0,3,255}"},
+		},
+	},
+	{
+		ID: "C08", Pkg: "./c08", ReplayPkg: "./cmd/rc08", Level: "model_checking",
+		Assumptions: append([]string{"inductive step: the counter pre-state is an arbitrary 32-bit value installed with the VerifSetSeq hook, so sessions of any length (including across the 2^32 wrap) reduce to the steps explored", "time.Now is a symbolic non-decreasing wall clock; the export time must lie between a reading taken before and one taken after SendSet", "failed sends are outside the statement (as the property says)"}, codecAssumptions...),
+		Harnesses: []HarnessSpec{
+			{Func: "Check_SeqStep", Reach: []string{"data", "template", "near-wrap"}, Tune: func(c *sym.Config, th bool) { c.ClockMode = "wall" },
+				Bounds: "1..2 (quick) / 1..3 (thorough) successive sends after a template, each template or data with 1..3 records; counter, observation domain, values and clock symbolic"},
+		},
+	},
+	{
+		ID: "C09", Pkg: "./c09", ReplayPkg: "./cmd/rc09", Level: "model_checking",
+		Assumptions: append([]string{"refusal = error returned and zero bytes handed to net.Conn.Write", "a 16-byte v4-mapped address in an IPv4 element and a 4-byte address in an IPv6 element are treated as well-typed (net.IP semantics)"}, codecAssumptions...),
+		Harnesses: []HarnessSpec{
+			{Func: "Check_UnknownTemplate", Reach: []string{"transmitted", "refused"}, Bounds: "0..2 templates sent with symbolic ids, data with symbolic id, 1..2 records"},
+			{Func: "Check_FieldCount", Reach: []string{"accepted", "refused"}, Bounds: "template of 0..3 fields, record of 0..3 fields, 1..2 records with the mismatching one at any position"},
+			{Func: "Check_SizeLimit", Reach: []string{"fits", "oversized"}, Bounds: "every message size 65519..65540 (string field of symbolic content)"},
+			{Func: "Check_SizeLimitSymbolic", Reach: []string{"fits", "oversized"}, Bounds: "set length symbolic in [65400,65600]"},
+			{Func: "Check_UndefinedSetType", Reach: []string{"refused"}, Bounds: "reset set, with and without prior PrepareSet"},
+			{Func: "Check_Fidelity", Reach: []string{"refused-at-send", "transmitted-faithfully"}, Bounds: "IPv4 element with address of 0,3,4,5,16 bytes; IPv6 element with 0,3,4,15,16,17 bytes; MAC of 0..8 bytes; fixed 5-byte octet array of 0..7 bytes; all bytes symbolic"},
+		},
+	},
 }
 
 var _ = sym.Config{}
